@@ -15,7 +15,7 @@ ASSUMPTIONS = ['text collation/case, number-vs-text, date-vs-number and boolean-
 DT = datetime.datetime
 NUMS = [-10, -2, -1, 0, 1, 2, 9, 10, 0.5, 1.2, 1.7, -0.5, -1.5, 2.5, 0.1 + 0.2, 0.3, 1e-7, 1e15 + 0.5, 3.999999, 4,
         1234567.125, 1234567.25, 1.000000000000001, 0.1234567890123456, 0.1234567890123457, -3, -2.5]
-TEXTS = ['', 'a', 'b', 'B', 'ab', '10', '9', '1.5', ' ', '-1', '0', '-0.5']      # numeric-looking texts of every sign
+TEXTS = ['', 'a', 'b', 'B', 'ab', '10', '9', '1.5', ' ', '-1', '0', '-0.5', '10.0', '1.50', '010']      # numeric-looking texts of every sign; the same number spelled differently (laws only)
 DATES = [DT(2019, 12, 31), datetime.date(2020, 1, 1), DT(2020, 1, 1), DT(2020, 1, 1, 12, 0), DT(2024, 2, 29),
          datetime.date(2024, 2, 29)]
 BOOLS = [True, False]
